@@ -28,7 +28,7 @@ FLOORS = {'npv_calls': 500, 'pmt_pv_calls': 1000, 'sln_calls': 100,
           'xnpv_calls': 300, 'irr_calls': 100, 'xirr_calls': 100,
           'linearity_relations': 100, 'inversion_relations': 200,
           'formula_calls': 50, 'layout_calls': 50, 'xnpv_timed_dates': 30,
-          'xnpv_zero_flows': 30}
+          'xnpv_zero_flows': 30, 'whole_number_finance_cases': 6}
 ANCHOR_FUNCS = {'xlcalculator/xlfunctions/financial.py': [
     'NPV', 'PMT', 'PV', 'SLN', 'XNPV', 'IRR', 'XIRR', '_xnpv', '_xirr']}
 TIMEOUT = {'quick': 600, 'thorough': 3000}
@@ -369,6 +369,30 @@ def run(ctx):
                             formulas.append(('XIRR-range', None,
                                              (flows, dts), float(xroot),
                                              1e-6))
+
+    # ---- whole-number arguments (as formulas and integer cells hand them over)
+    # with growth factors beyond 2^63 ----------------------------------------------
+    if ctx.shard in (0, 1) or thorough:
+        for rate, nper, pv in ((10, 20, 1000), (2, 40, 1000), (1, 60, 1000),
+                               (3, 10, 1000), (1, 64, 1), (9, 19, 5)):
+            R1 = 1 + mp.mpf(rate)
+            want = float(-(mp.mpf(pv) * R1 ** nper) * rate / (R1 ** nper - 1))
+            got = monitors.call_outcome(F['PMT'], rate, nper, pv)
+            judge('PMT', f'PMT({rate}, {nper}, {pv}) [whole-number arguments]',
+                  got, want, 1e-9 * abs(want), 'pmt_pv_calls',
+                  ('PMT-int', rate, nper))
+            got = subject.eval_one('=PMT(A1,A2,A3)', {'A1': rate, 'A2': nper,
+                                                      'A3': pv})
+            judge('PMT', f'=PMT(A1,A2,A3) with whole-number cells '
+                  f'{rate}, {nper}, {pv}', got, want, 1e-9 * abs(want),
+                  'formula_calls', ('PMT-int-cells', rate, nper))
+            pm = -100
+            pv_ref = float(-(mp.mpf(pm) * (R1 ** nper - 1) / rate) / R1 ** nper)
+            got = monitors.call_outcome(F['PV'], rate, nper, pm)
+            judge('PV', f'PV({rate}, {nper}, {pm}) [whole-number arguments]',
+                  got, pv_ref, 1e-9 * abs(pv_ref), 'pmt_pv_calls',
+                  ('PV-int', rate, nper))
+            ctx.event('whole_number_finance_cases')
 
     # ---- the range-taking spellings as formulas --------------------------------------
     for kind, r, data, want, tol in formulas:
